@@ -331,3 +331,15 @@ def run(ctx):
         ok, detail = ef.site_propagates(c, n)
         ctx.check(ok, "R14.5", "version_parse@%s#%d" % (c.name, [x for x in c.all_calls_syntactic("version_parse")].index(n)),
                   c.loc(n), "result of version_parse ignored: " + detail)
+
+
+_run_base = run
+
+
+def run(ctx):
+    _run_base(ctx)
+    prog = ctx.prog
+    ctx.rule("R14.6", "a refused model version stops the emulation: the failure of model_version_probe is followed call "
+             "site by call site (model probe hooks, model_probe, emu_init) to main's exit status")
+    from rules import round3
+    round3.check_probe_failure_propagates(ctx, "R14.6")
